@@ -52,6 +52,11 @@ const MAXI: usize = 4;
 struct Host {
     /// unique first bytes: see mock_task::Globals
     magic: u64,
+    /// width of one item in the buffer (1, or 4 / 8 for the wide canonical payloads)
+    elem_size: usize,
+    /// ZST harnesses: what the guest offered / what the host answered
+    z_offered: usize,
+    z_k: usize,
     wh: u32,
     rh: u32,
     // write side
@@ -84,6 +89,9 @@ struct Host {
 
 static mut H: Host = Host {
     magic: 0x6331_395f_686f_7374,
+    elem_size: 1,
+    z_offered: 0,
+    z_k: 0,
     wh: 0,
     rh: 0,
     write_in_progress: false,
@@ -122,14 +130,19 @@ fn any_k(min: usize, n: usize) -> usize {
 unsafe fn host_take(k: usize) {
     assert!(k <= H.write_len && k <= 3);
     let p = H.write_ptr;
+    let es = H.elem_size;
     if k > 0 {
         assert!(*p == W0 + H.log_n as u8, "item reached the host out of order, twice, or not at all");
     }
     if k > 1 {
-        assert!(*p.add(1) == W0 + H.log_n as u8 + 1, "item reached the host out of order, twice, or not at all");
+        assert!(*p.add(es) == W0 + H.log_n as u8 + 1, "item reached the host out of order, twice, or not at all");
     }
     if k > 2 {
-        assert!(*p.add(2) == W0 + H.log_n as u8 + 2, "item reached the host out of order, twice, or not at all");
+        assert!(*p.add(2 * es) == W0 + H.log_n as u8 + 2, "item reached the host out of order, twice, or not at all");
+    }
+    if es > 1 && k > 0 {
+        // wide (little-endian) items 0x10, 0x11, ...: every other byte is zero
+        assert!(*p.add(1) == 0 && *p.add(es - 1) == 0, "the buffer offered to the host is not element-aligned with the vector");
     }
     H.log_n += k;
     H.last_k = k as u32;
@@ -143,10 +156,10 @@ unsafe fn host_give(k: usize) {
         *p = R0 + H.produced_n as u8;
     }
     if k > 1 {
-        *p.add(1) = R0 + H.produced_n as u8 + 1;
+        *p.add(H.elem_size) = R0 + H.produced_n as u8 + 1;
     }
     if k > 2 {
-        *p.add(2) = R0 + H.produced_n as u8 + 2;
+        *p.add(2 * H.elem_size) = R0 + H.produced_n as u8 + 2;
     }
     H.produced_n += k;
     H.last_k = k as u32;
@@ -171,10 +184,9 @@ unsafe fn h_start_write(h: u32, ptr: *const u8, n: usize) -> u32 {
     H.write_len = n;
     mt::G.expect_waitable = h;
     mt::G.expect_ptr = core::ptr::null_mut();
-    if H.reader_dropped {
-        H.last_k = 0;
-        return DROPPED;
-    }
+    // canonical ABI: a copy that answered DROPPED leaves the end in CopyState.DONE;
+    // any further stream.write on it traps (`trap_if(e.state != IDLE)`)
+    assert!(!H.reader_dropped, "stream.write on an end whose previous write already answered DROPPED (host traps)");
     let kind: u32 = kani::any();
     kani::assume(kind == COMPLETED || kind == DROPPED || kind == BLOCKED);
     if kind == BLOCKED {
@@ -212,6 +224,7 @@ unsafe fn h_drop_writable(h: u32) {
     assert!(!mt::registered_anywhere(h), "stream.drop-writable while the end is still registered with a task");
     assert!(H.drop_writable_calls == 0, "stream.drop-writable twice");
     H.drop_writable_calls += 1;
+    mt::G.handle_closed = true;
 }
 
 unsafe fn h_start_read(h: u32, ptr: *mut u8, n: usize) -> u32 {
@@ -223,10 +236,7 @@ unsafe fn h_start_read(h: u32, ptr: *mut u8, n: usize) -> u32 {
     H.read_cap = n;
     mt::G.expect_waitable = h;
     mt::G.expect_ptr = core::ptr::null_mut();
-    if H.writer_dropped {
-        H.last_k = 0;
-        return DROPPED;
-    }
+    assert!(!H.writer_dropped, "stream.read on an end whose previous read already answered DROPPED (host traps)");
     let kind: u32 = kani::any();
     kani::assume(kind == COMPLETED || kind == DROPPED || kind == BLOCKED);
     if kind == BLOCKED {
@@ -264,6 +274,7 @@ unsafe fn h_drop_readable(h: u32) {
     assert!(!mt::registered_anywhere(h), "stream.drop-readable while the end is still registered with a task");
     assert!(H.drop_readable_calls == 0, "stream.drop-readable twice");
     H.drop_readable_calls += 1;
+    mt::G.handle_closed = true;
 }
 
 unsafe fn write_event() {
@@ -421,6 +432,8 @@ trait Item: Sized + 'static {
     type Ops: StreamOps<Payload = Self> + Copy;
     const OPS: Self::Ops;
     const LIFTED: bool;
+    /// size of one item in the canonical buffer
+    const SIZE: usize;
     fn make(b: u8) -> Self;
     /// Take a value back into the harness: check its identity, release it without running `Drop`.
     fn check_and_forget(self, b: u8);
@@ -429,6 +442,7 @@ impl Item for u8 {
     type Ops = OpsU8;
     const OPS: OpsU8 = OpsU8;
     const LIFTED: bool = false;
+    const SIZE: usize = 1;
     fn make(b: u8) -> u8 {
         b
     }
@@ -440,6 +454,7 @@ impl Item for Val {
     type Ops = OpsVal;
     const OPS: OpsVal = OpsVal;
     const LIFTED: bool = true;
+    const SIZE: usize = 1;
     fn make(b: u8) -> Val {
         Val(b)
     }
@@ -448,6 +463,79 @@ impl Item for Val {
         core::mem::forget(self);
     }
 }
+
+/// Canonical payloads wider than one byte (`u32`, `u64`): same layout in Rust
+/// and in the canonical ABI, no lists -- the vector itself is the buffer, and
+/// the cursor of a partially written buffer counts ELEMENTS, not bytes.
+struct OpsW<T>(core::marker::PhantomData<T>);
+impl<T> Clone for OpsW<T> {
+    fn clone(&self) -> Self {
+        OpsW(core::marker::PhantomData)
+    }
+}
+impl<T> Copy for OpsW<T> {}
+
+unsafe impl<T: Copy + 'static> StreamOps for OpsW<T> {
+    type Payload = T;
+    fn new(&mut self) -> u64 {
+        unsafe { h_new() }
+    }
+    fn elem_layout(&self) -> Layout {
+        Layout::new::<T>()
+    }
+    fn native_abi_matches_canonical_abi(&self) -> bool {
+        true
+    }
+    fn contains_lists(&self) -> bool {
+        false
+    }
+    unsafe fn lower(&mut self, _: T, _: *mut u8) {
+        assert!(false, "lower called for a canonical payload");
+    }
+    unsafe fn dealloc_lists(&mut self, _: *mut u8) {
+        assert!(false, "dealloc_lists called for a payload without lists");
+    }
+    unsafe fn lift(&mut self, _: *mut u8) -> T {
+        assert!(false, "lift called for a canonical payload");
+        core::mem::zeroed()
+    }
+    unsafe fn start_write(&mut self, s: u32, p: *const u8, n: usize) -> u32 {
+        h_start_write(s, p, n)
+    }
+    unsafe fn start_read(&mut self, s: u32, p: *mut u8, n: usize) -> u32 {
+        h_start_read(s, p, n)
+    }
+    unsafe fn cancel_read(&mut self, s: u32) -> u32 {
+        h_cancel_read(s)
+    }
+    unsafe fn cancel_write(&mut self, s: u32) -> u32 {
+        h_cancel_write(s)
+    }
+    unsafe fn drop_readable(&mut self, s: u32) {
+        h_drop_readable(s)
+    }
+    unsafe fn drop_writable(&mut self, s: u32) {
+        h_drop_writable(s)
+    }
+}
+macro_rules! wide_item {
+    ($t:ty) => {
+        impl Item for $t {
+            type Ops = OpsW<$t>;
+            const OPS: OpsW<$t> = OpsW(core::marker::PhantomData);
+            const LIFTED: bool = false;
+            const SIZE: usize = core::mem::size_of::<$t>();
+            fn make(b: u8) -> $t {
+                b as $t
+            }
+            fn check_and_forget(self, b: u8) {
+                assert!(self == b as $t, "value handed back is not the expected item");
+            }
+        }
+    };
+}
+wide_item!(u32);
+wide_item!(u64);
 
 /// `vec![make(W0), make(W0+1), ...]` of length `LEN` (<= 3) with exact capacity.
 fn items<T: Item, const LEN: usize>() -> Vec<T> {
@@ -534,6 +622,7 @@ fn c19_return_code_invalid_traps() {
 /// LEN`, i.e. every valid (cursor, len) state), one more `advance(b)`,
 /// `abi_ptr_and_len`, `remaining` and `into_vec`.
 unsafe fn abibuf<T: Item, const LEN: usize>() {
+    H.elem_size = T::SIZE;
     let v: Vec<T> = items::<T, LEN>();
     let base = v.as_ptr() as *const u8;
     let mut buf: AbiBuffer<T::Ops> = abi_buffer_new(v, T::OPS);
@@ -550,7 +639,7 @@ unsafe fn abibuf<T: Item, const LEN: usize>() {
     let (p1, n1) = abi_buffer_ptr_and_len(&buf);
     assert!(n1 == LEN - a);
     if LEN > 0 {
-        assert!(p1 == p0.add(a), "ABI pointer must move by one element per advanced item");
+        assert!(p1 == p0.add(a * T::SIZE), "ABI pointer must move by one element per advanced item");
     }
     if n1 > 0 {
         assert!(*p1 == W0 + a as u8, "ABI pointer does not point at the first unsent item");
@@ -561,6 +650,9 @@ unsafe fn abibuf<T: Item, const LEN: usize>() {
     assert!(buf.remaining() == LEN - a - b);
     let (p2, n2) = abi_buffer_ptr_and_len(&buf);
     assert!(n2 == LEN - a - b);
+    if LEN > 0 {
+        assert!(p2 == p0.add((a + b) * T::SIZE), "ABI pointer must move by one element per advanced item");
+    }
     if n2 > 0 {
         assert!(*p2 == W0 + (a + b) as u8);
     }
@@ -614,6 +706,8 @@ c19_abibuf!(c19_abibuf_u8_len3, u8, 3);
 c19_abibuf!(c19_abibuf_val_len0, Val, 0);
 c19_abibuf!(c19_abibuf_val_len1, Val, 1);
 c19_abibuf!(c19_abibuf_val_len3, Val, 3);
+c19_abibuf!(c19_abibuf_u32_len3, u32, 3);
+c19_abibuf!(c19_abibuf_u64_len2, u64, 2);
 c19_abibuf!(c19_deep_abibuf_u8_len2, u8, 2);
 c19_abibuf!(c19_deep_abibuf_val_len2, Val, 2);
 
@@ -694,6 +788,7 @@ macro_rules! c19w {
                 install_task(&mut t1, &mut t2);
                 let mut cx = Context::from_waker(Waker::noop());
                 let handles = h_new();
+                H.elem_size = <$t as Item>::SIZE;
                 let mut tx = RawStreamWriter::new((handles >> 32) as u32, <$t as Item>::OPS);
                 let mut back = 0usize;
                 #[allow(unused_assignments, unused_mut)]
